@@ -503,4 +503,70 @@ def faceNormal : List V3 → V3
   | [q0, q1, q2] => V3.cross (V3.sub q1 q0) (V3.sub q2 q0)
   | _ => V3.zero
 
+/-! ### input conditions evaluated by the driver on every case -/
+
+/-- the other end of a stored face -/
+def otherEnd (f : Nat × Nat) (n : Nat) : Nat := if f.1 = n then f.2 else f.1
+
+/-- corners `(p, q, s)` of the cell with faces `(f0, f1, f2)`: `q` is shared by `f0` and `f1`,
+    `p` is the other end of `f0`, `s` the other end of `f1` -/
+def triCorners (fn : List (Nat × Nat)) (c : Nat × Nat × Nat) : Nat × Nat × Nat :=
+  let q := sharedNode (faceAt fn c.2.1) (faceAt fn c.1)
+  (otherEnd (faceAt fn c.1) q, q, otherEnd (faceAt fn c.2.1) q)
+
+def isEdgeB (f : Nat × Nat) (p q : Nat) : Bool :=
+  (decide (f.1 = p) && decide (f.2 = q)) || (decide (f.1 = q) && decide (f.2 = p))
+
+/-- decidable well-formedness of one triangle cell: its three stored faces exist and are the three
+    edges of a triangle with three distinct existing corners -/
+def triCellOk (nnodes : Nat) (fn : List (Nat × Nat)) (c : Nat × Nat × Nat) : Bool :=
+  let pqs := triCorners fn c
+  decide (c.1 < fn.length) && decide (c.2.1 < fn.length) && decide (c.2.2 < fn.length) &&
+  isEdgeB (faceAt fn c.1) pqs.1 pqs.2.1 && isEdgeB (faceAt fn c.2.1) pqs.2.1 pqs.2.2 &&
+  isEdgeB (faceAt fn c.2.2) pqs.2.2 pqs.1 &&
+  decide (pqs.1 ≠ pqs.2.1) && decide (pqs.2.1 ≠ pqs.2.2) && decide (pqs.2.2 ≠ pqs.1) &&
+  decide (pqs.1 < nnodes) && decide (pqs.2.1 < nnodes) && decide (pqs.2.2 < nnodes)
+
+/-- every point lies in exactly one cell (the precondition "nested grids" of `structured_refinement`) -/
+def uniqueB {α β : Type} (inside : α → β → Bool) (cells : List α) (pts : List β) : Bool :=
+  pts.all (fun p => (cells.filter (fun c => inside c p)).length == 1)
+
+def increasingB : List Rat → Bool
+  | a :: b :: rest => decide (a < b) && increasingB (b :: rest)
+  | _ => true
+
+def decreasingB : List Rat → Bool
+  | a :: b :: rest => decide (b < a) && decreasingB (b :: rest)
+  | _ => true
+
+/-- the documented precondition on the layer coordinates: increasing and non-negative, or
+    decreasing and non-positive -/
+def zOk (z : List Rat) : Bool :=
+  (increasingB z && z.all (fun v => decide (0 ≤ v))) || (decreasingB z && z.all (fun v => decide (v ≤ 0)))
+
+/-! ### entry guards of structured_refinement -/
+
+inductive SrefEntry where
+  | point        -- `g.dim == 0`: the 1×1 identity mapping
+  | assertion    -- wrong order of the grids, or unequal dimensions: AssertionError
+  | sweep        -- the sweep over the coarse cells
+deriving DecidableEq, Repr
+
+def srefEntry (dimC dimF ncC ncF : Nat) : SrefEntry :=
+  if dimC = 0 then .point
+  else if ¬ (ncC < ncF) then .assertion
+  else if dimC ≠ dimF then .assertion
+  else .sweep
+
+/-! ### repeated 1-d refinement -/
+
+/-- the refined grid as input of the next refinement: cell `(start, end)` = its two nodes in
+    increasing index order (the sorted csc column of `cell_nodes()`) -/
+def asCells (fine : List (Nat × Nat)) : List (Nat × Nat) :=
+  fine.map (fun ab => if ab.1 ≤ ab.2 then ab else (ab.2, ab.1))
+
+def refine1dTwice (nodes : List V3) (cells : List (Nat × Nat)) (r1 r2 : Nat) : List V3 × List (List Nat) :=
+  let out1 := refine1d nodes cells r1
+  refine1d out1.1 (asCells (fineCells out1.2)) r2
+
 end PorepyVerif.C23
